@@ -38,7 +38,7 @@ Section SeqSpec.
     | OBottom => (t, UOA (match rev t with x :: _ => Some x | [] => None end))
     | OFlush => ([], UUnit)
     | OReplace i a => if inb i t then (upd t (pos i) a, UOZ None)
-                      else (t, UOZ (Some (i - len t + 1)))
+                      else (t, UOZ (Some (Z.min 18446744073709551615 (i - len t + 1))))   (* the offset, saturating at usize::MAX *)
     | ORemove i => (del t (pos i), UUnit)
     | OReverse => (rev t, UUnit)
     | OGet i => (t, UOA (nth_error t (pos i)))
@@ -69,7 +69,7 @@ Section SeqSpec.
   Definition op_wf (t : seq) (o : op) : Prop :=
     match o with
     | OEqualAt i _ | OReplace i _ | ORemove i | OGet i | OYank i | OShove i
-    | OPopVec i | OCopy i | OCopyVec i => 0 <= i < 18446744073709551615
+    | OPopVec i | OCopy i | OCopyVec i => 0 <= i <= 18446744073709551615
     | OSwap i j => 0 <= i < len t /\ 0 <= j < len t
     | _ => True
     end.
@@ -80,6 +80,50 @@ Section SeqSpec.
     | o :: r => let '(t', u) := spec_step t o in
                 let '(t'', us) := spec_run t' r in (t'', u :: us)
     end.
+
+  (* The same function for machine evaluation: a position beyond the end is replaced by the length before it
+     is turned into a (unary) natural number, so that positions like 2^64 - 1 can be evaluated.
+     [spec_step_c_eq] below: it IS spec_step. *)
+  Definition clamp_op (t : seq) (o : op) : op :=
+    let c i := Z.min i (len t) in
+    match o with
+    | OEqualAt i a => OEqualAt (c i) a
+    | ORemove i => ORemove (c i)
+    | OGet i => OGet (c i)
+    | OYank i => OYank (c i)
+    | OCopy i => OCopy (c i)
+    | _ => o
+    end.
+  Definition spec_step_c (t : seq) (o : op) : seq * out := spec_step t (clamp_op t o).
+
+  Lemma nth_error_clamp (t : seq) (i : Z) : nth_error t (pos (Z.min i (len t))) = nth_error t (pos i).
+  Proof.
+    unfold pos, len. destruct (Z.min_spec i (Z.of_nat (length t))) as [[H E]|[H E]]; rewrite E; [reflexivity|].
+    rewrite (proj2 (nth_error_None t (Z.to_nat i))) by lia.
+    rewrite (proj2 (nth_error_None t (Z.to_nat (Z.of_nat (length t))))) by lia. reflexivity.
+  Qed.
+  Lemma del_clamp (t : seq) (i : Z) : del t (pos (Z.min i (len t))) = del t (pos i).
+  Proof.
+    unfold pos, len. destruct (Z.min_spec i (Z.of_nat (length t))) as [[H E]|[H E]]; rewrite E; [reflexivity|].
+    rewrite !del_beyond by lia. reflexivity.
+  Qed.
+  Lemma spec_step_c_eq (t : seq) (o : op) : spec_step_c t o = spec_step t o.
+  Proof.
+    unfold spec_step_c. destruct o; cbn [clamp_op spec_step]; try reflexivity;
+      rewrite ?nth_error_clamp, ?del_clamp; reflexivity.
+  Qed.
+
+  Fixpoint spec_run_c (t : seq) (ops : list op) : seq * list out :=
+    match ops with
+    | [] => (t, [])
+    | o :: r => let '(t', u) := spec_step_c t o in
+                let '(t'', us) := spec_run_c t' r in (t'', u :: us)
+    end.
+  Lemma spec_run_c_eq (ops : list op) : forall t, spec_run_c t ops = spec_run t ops.
+  Proof.
+    induction ops as [|o r IH]; intros t; cbn [spec_run_c spec_run]; [reflexivity|].
+    rewrite spec_step_c_eq. destruct (spec_step t o) as [t' u]. rewrite IH. reflexivity.
+  Qed.
 
   (* all operations of a history are well formed along the spec's own run *)
   Fixpoint ops_wf (t : seq) (ops : list op) : Prop :=
